@@ -62,6 +62,11 @@ CHECKS.update({
  "C12": ("each (state, observation) pair returned together on generated histories is compared with an independent NumPy observer (top-k EMS, feature planes, fov windows, sensor vectors, relabelling, copied fields)",
          "Generated-history exploration over configurations covering fov/sensor ranges, obs_num_ems < and = max, normalisation on/off and both LBF observers; solver plans reach deliveries, eaten food and line clears where observations change most.", _MODEL_NOTE, "3/C12"),
 })
+CHECKS.update({
+ "C16": ("Hypothesis-generated spec descriptions (Array / BoundedArray with scalar and per-element bounds / DiscreteArray / MultiDiscreteArray / nested Spec trees) and values at, just inside and just outside every bound; independent membership predicate; equality matrices; pickle / replace round trips; converted gym spaces and dm_env specs; the real specs of all 23 environments",
+         "Generated-input exploration of the spec algebra: validate <=> independent membership predicate, generate_value membership, replace / pickle round trips, == as an equivalence that distinguishes every attribute, nested equality iff children equal, membership in converted gym / dm_env spaces and validity of sampled actions - on ~3 000 (quick) / 60 000 (thorough) synthetic specs plus every environment's real specs.",
+         "NaN and subnormal floats are outside the domain; equality only between same-kind, same-structure specs; one recorded known finding (MultiDiscrete conversion dtype).", "3/C16"),
+})
 NOT_APPLICABLE = {}
 PENDING_REASON = "check not built yet in this revision of /verif (work in progress); the technique applies and the design is in DESIGN.md section 3"
 
